@@ -212,6 +212,12 @@ class PathTemplateWriter:
 
             # insert the rotation stamp into the new filename.
             dst = os.path.join(src_dir, "{fname}.{stamp}.{ext}".format(**locals()))
+
+            # the stamp has a resolution of one second, never overwrite an earlier rotation
+            seq = 0
+            while os.path.exists(dst):
+                seq += 1
+                dst = os.path.join(src_dir, "{fname}.{stamp}-{seq}.{ext}".format(**locals()))
             log.info("RENAME {!r} -> {!r}".format(src, dst))
             os.rename(src, dst)
 
